@@ -845,7 +845,7 @@ func runC03R3(c *core.Ctx, pr *pipeRoles) {
 	}
 	sort.Strings(cases)
 	c.Instance("R3")
-	c.Check(strings.Join(cases, ",") == strings.Join(want, ","), "R3", "checkHandler/cases", p.Pos(chk.Pos()), "admits exactly the cast-field interfaces", fmt.Sprintf("admission check cases %v differ from the cast-field interfaces %v", cases, want))
+	c.Check(strings.Join(cases, ",") == strings.Join(want, ","), "R3", core.FName(chk)+"/cases", p.Pos(chk.Pos()), "admits exactly the cast-field interfaces", fmt.Sprintf("admission check cases %v differ from the cast-field interfaces %v", cases, want))
 	// a handler that satisfies none of them: every path that fails all assertions raises before the next
 	// handler is looked at or the function returns
 	pan := &core.Query{P: p, Pred: func(x ssa.Instruction) bool { _, ok := x.(*ssa.Panic); return ok }}
@@ -870,7 +870,7 @@ func runC03R3(c *core.Ctx, pr *pipeRoles) {
 			defaultPanics = false
 		}
 	}
-	c.Check(defaultPanics, "R3", "checkHandler/default-panics", p.Pos(chk.Pos()), "a handler matching no interface raises", "admission check has no panicking default arm (a handler implementing no handler interface is admitted silently)")
+	c.Check(defaultPanics, "R3", core.FName(chk)+"/default-panics", p.Pos(chk.Pos()), "a handler matching no interface raises", "admission check has no panicking default arm (a handler implementing no handler interface is admitted silently)")
 }
 
 // ---------- R4 ----------
